@@ -160,7 +160,7 @@ void lattice_evals(vt::Rng& rng, int64_t icase, const function_t& function, cons
             tensor_size_t il = 0, im = 0;
             for (const auto& c : function.constraints())
             {
-                const auto m = static_cast<double>(is_equality(c) ? rng.range(-3, 3) : rng.range(0, 4));
+                const auto m = static_cast<double>(is_equality(c) ? rng.range(-3, 3) : rng.range(-3, 4)); // "any multiplier values": negative ones for inequalities too
                 (is_equality(c) ? lambda(il++) : miu(im++)) = m;
                 mult.push_back(static_cast<int64_t>(m));
             }
